@@ -58,7 +58,7 @@ theorem classify_int (i : Int) :
     · subst hg; decide
   have hset := digit_in_set c (by rcases hg with h | h; exact Or.inl h; exact Or.inr (Or.inl h))
   have hlast : (c :: (t ++ [105])).getLast? = some 105 := by
-    show ((c :: t) ++ [105]).getLast? = _; simp
+    show ((c :: t) ++ [105]).getLast? = _; exact getLast?_append_single _ _
   have hdl : (c :: (t ++ [105])).dropLast = c :: t := by
     show ((c :: t) ++ [105]).dropLast = _; exact List.dropLast_concat
   simp only [hq, if_false, hset, if_true, hlast, hdl]
@@ -71,7 +71,7 @@ theorem classify_uint (u : Nat) :
   have hq : c ≠ cQuote := (isDigit_ne c hg).2.2.2.2.2.2.2.2.2.1
   have hset := digit_in_set c (Or.inl hg)
   have hlast : (c :: (t ++ [117])).getLast? = some 117 := by
-    show ((c :: t) ++ [117]).getLast? = _; simp
+    show ((c :: t) ++ [117]).getLast? = _; exact getLast?_append_single _ _
   have hdl : (c :: (t ++ [117])).dropLast = c :: t := by
     show ((c :: t) ++ [117]).dropLast = _; exact List.dropLast_concat
   simp only [hq, if_false, hset, if_true, hlast, hdl]
@@ -163,20 +163,23 @@ theorem pointFieldsAux_sorted (fs : List (Bytes × FV)) (acc : List (Bytes × PV
   induction fs generalizing acc with
   | nil => simp [pointFieldsAux]
   | cons f rest ih =>
-    obtain ⟨hne, hval⟩ := hv f (by simp)
-    have hemp : (rawFieldOf f).key.isEmpty = false := by
+    obtain ⟨k, v⟩ := f
+    obtain ⟨hne, hval⟩ := hv (k, v) (by simp)
+    simp only at hne hval
+    have hemp : (rawFieldOf (k, v)).key.isEmpty = false := by
       simp only [rawFieldOf]
-      cases h : f.1 with
+      cases h : k with
       | nil => exact absurd h hne
       | cons _ _ => rfl
     rw [List.map_cons, pointFieldsAux]
     simp only [hemp, Bool.false_eq_true, if_false]
-    rw [show f = (f.1, f.2) from rfl, fieldValue_rawFieldOf f.1 f.2 hval]
+    rw [fieldValue_rawFieldOf k v hval]
     simp only []
-    rw [mapInsert_append _ _ _ (fun x hx => (cmpBytes_gt_iff_lt _ _).mpr (hacc x hx f (by simp)))]
+    have hkey : (rawFieldOf (k, v)).key = k := rfl
+    rw [hkey, mapInsert_append _ _ _ (fun x hx => (cmpBytes_gt_iff_lt _ _).mpr (hacc x hx (k, v) (by simp)))]
     have hs' := List.pairwise_cons.mp hs
-    rw [ih (acc ++ [(f.1, pvalOf f.2)]) (fun g hg => hv g (by simp [hg])) hs'.2]
-    · simp [rawFieldOf]
+    rw [ih (acc ++ [(k, pvalOf v)]) (fun g hg => hv g (by simp [hg])) hs'.2]
+    · simp
     · intro a ha g hg
       rcases List.mem_append.mp ha with h | h
       · exact hacc a h g (by simp [hg])
